@@ -13,6 +13,8 @@ from specs.tree import mentions, binds, wf_q
 import contracts.typing_c03  # noqa: F401  (constructor contracts used at the call sites)
 import contracts.queries_c15  # noqa: F401  (contains_reference)
 import contracts.sem_lemmas  # noqa: F401
+from contracts.sem_lemmas import is_empty_test, empty_test_sem
+from specs.typing import COMPOUND
 
 
 @spec(inline=True)
@@ -62,10 +64,51 @@ def valid_in(e: 'Expr') -> 'Bool':
 
 # ------------------------------------------------------------------------------------------------ helpers
 
+@contract('hpl.rewrite.empty_test', props=['C09'])
+class empty_test_c:
+    """`len(expr) = 0`: true exactly when the domain has no members (A-SEM-3)"""
+    result = 'Expr'
+    params = {'expr': 'Expr'}
+
+    @aux
+    def requires(expr):
+        return wt(expr)
+
+    @tag('C14')
+    def raises_TypeError(expr):
+        return (expr.data_type & COMPOUND) == NONE
+
+    def hint_post(expr, result):
+        empty_test_sem(result, expr)
+
+    def ensures_shape(expr, result):
+        return is_empty_test(result, expr)
+
+    def ensures_meaning(expr, result):
+        return forall_env(lambda rho: ev(result, rho) == (len(dom(expr, rho)) == 0))
+
+    @aux
+    def ensures_valid(expr, result):
+        return wt(result) and result.data_type == BOOL and (wf_q(result) == wf_q(expr))
+
+
+
 @contract('hpl.rewrite._and_presplit_transform', props=['C09'])
 class and_presplit_transform:
     result = 'Expr'
     params = {'phi': 'Expr'}
+
+    # Internal errors of the quantifier constructor (its validators re-check typing of the bound variable and
+    # hygiene on the rebuilt body) are not excluded by this contract: totality is C14 (bounded there).
+    raise_mode = {'TypeError': 'only_if', 'HplSanityError': 'only_if'}
+
+    @tag('C14')
+    def raises_TypeError(phi):
+        return True
+
+    @tag('C14')
+    def raises_HplSanityError(phi):
+        return True
 
     @aux
     def requires(phi):
@@ -91,6 +134,18 @@ class split_and_not:
     result = 'Expr'
     params = {'neg': 'Expr'}
 
+    # Internal errors of the quantifier constructor (its validators re-check typing of the bound variable and
+    # hygiene on the rebuilt body) are not excluded by this contract: totality is C14 (bounded there).
+    raise_mode = {'TypeError': 'only_if', 'HplSanityError': 'only_if'}
+
+    @tag('C14')
+    def raises_TypeError(neg):
+        return True
+
+    @tag('C14')
+    def raises_HplSanityError(neg):
+        return True
+
     @aux
     def requires(neg):
         return is_neg(neg) and valid_in(neg)
@@ -110,6 +165,18 @@ class split_and_not:
 class split_and_quantifier:
     result = 'Expr'
     params = {'quant': 'Expr'}
+
+    # Internal errors of the quantifier constructor (its validators re-check typing of the bound variable and
+    # hygiene on the rebuilt body) are not excluded by this contract: totality is C14 (bounded there).
+    raise_mode = {'TypeError': 'only_if', 'HplSanityError': 'only_if'}
+
+    @tag('C14')
+    def raises_TypeError(quant):
+        return True
+
+    @tag('C14')
+    def raises_HplSanityError(quant):
+        return True
 
     @aux
     def requires(quant):
